@@ -217,7 +217,7 @@ CHECK_DEADLOCK FALSE
     ctx.cov["exhaustive"] = not ctx.replay
     ctx.cov["rule"] = ("all SIEVE M-spec histories of (operations, raw capacities) = %s over 3 keys (canonical key order) x 2 "
                        "values, plus random M-spec walks of 12 operations over 4 keys, each replayed on "
-                       "both cache implementations with a final probe sweep; concurrent free-running histories under "
+                       "both cache implementations with a final probe sweep and a pressure tail (capacity+2 puts of fresh keys, then a read-back of every key); concurrent free-running histories under "
                        "-race.  non-trivial = a put met a full cache or a delete removed an entry (sequential); "
                        "two operations overlapped in real time (concurrent)" % (plans,))
     # 3./4. replay on the real code, validate against the P-spec
